@@ -23,6 +23,7 @@ func init() {
 
 func runC08(c *Ctx) {
 	p := c.P
+	sharedDigestRule(c, p, "R2", "common/ntor")
 	spec, err := loadSpec("ntor.json")
 	if err != nil {
 		c.Obl("R0", "spec", "spec table loads").Undecide("%v", err)
